@@ -111,6 +111,11 @@ pub fn with<R>(f: impl FnOnce(&mut HalState) -> R) -> R {
     HAL.with(|h| f(&mut h.borrow_mut()))
 }
 
+/// Like `with`, but returns None if the ledger is currently borrowed (used from the allocator hook).
+pub fn try_with<R>(f: impl FnOnce(&HalState) -> R) -> Option<R> {
+    HAL.try_with(|h| h.try_borrow().ok().map(|h| f(&h))).ok().flatten()
+}
+
 /// Resets the lab for a new execution, freeing leaked DMA memory of the previous one.
 pub fn reset() {
     HAL.with(|h| {
